@@ -9,6 +9,8 @@ CLAIMED = {
          'Coq proof (table equality by computation lifted to all bytes; totality and length bound by structural induction) + differential correspondence + architected-length monitor', 'DESIGN.md 7 C04'),
  'C05': ('proof', 'The branch/return conditions are translated from the source on every run and proved equal to the architected predicate for all 42 opcodes x 16 flag states; the model executes exactly that predicate with the prescribed PC/SP effect; exhaustive correspondence over opcode x flags x displacements plus an independent architected-predicate monitor.',
          'Coq proof over predicates regenerated from the source + exhaustive differential correspondence', 'DESIGN.md 7 C05'),
+ 'C06': ('proof', 'Theorems over exec of the model for ALL register and memory contents (pointers word-aligned in RAM): explicit final states of PUSHW, CALL, SAVE, RESTORE, RSB; the inverse pairs PUSHW/POPW, JSB|BSBB|BSBH/RSB, CALL/RET, SAVE/RESTORE for every save range restore SP/AP/FP/saved registers and return to the byte after the call site; SP moves by exactly +4/-4/+8/+28; bytes outside the architected words are unchanged (frame). Correspondence on generated balanced nests (depth 6 quick / 24 thorough) and edge-of-RAM single instructions; monitor: balanced nest restores SP, AP, FP, r3-r8 and ends at the expected PC. Not yet proved: the induction over arbitrary nesting derivations (covered by the generated nests).',
+         'Coq proof by symbolic execution of the model with a load/store theory of RAM + differential correspondence on generated nests + balance monitor', 'DESIGN.md 7 C06'),
  'C08': ('proof', 'Payload-polymorphic theorems by induction over all histories: delivered-while-ready ++ pipeline is an in-order subsequence of queued (no invention, duplication, reordering), loss only by flagged overrun / receiver reset / unready read, overrun flag sticky, FIFO refinement, invariant reachable; correspondence on receive-path histories incl. exhaustive short ones and fill x command x refill scenarios; conservation monitor.',
          'Coq proof by induction over port-operation histories (ghost queues) + differential correspondence + monitor', 'DESIGN.md 7 C08'),
  'C09': ('proof', 'Theorems: TxRDY implies empty holding register; gated writes reach the host queue exactly once in order (polled ++ pipeline = written) over all histories without reset-tx/loop-back; poll returns none iff empty; loop-back delivers to own receiver and never to the host; correspondence + monitor.',
